@@ -74,6 +74,7 @@ fn run_case(case: &Value) -> Value {
     let calls: Vec<Call<Method>> = (0..n).map(|i| Call::new(Method::Get { id: i as u32 })).collect();
     let mut steps = Vec::new();
     let mut stuck = false;
+    let mut after_drop: Value = Value::Null;
     // receives before the chain (their results are not held: the borrow checker forbids it)
     let pre = case.get("pre").and_then(|p| p.as_u64()).unwrap_or(0);
     'pre: for _ in 0..pre {
@@ -107,9 +108,11 @@ fn run_case(case: &Value) -> Value {
             chain = chain.append(c).unwrap();
         }
         let stream = block(chain.send()).unwrap().unwrap();
-        let mut stream = std::pin::pin!(stream);
+        let mut stream = Box::pin(stream);
         let mut held: Vec<&str> = Vec::new();
-        'outer: for _ in 0..n + 2 {
+        // "take": stop after this many items and DROP the unfinished stream, then re-read what is held
+        let take = case.get("take").and_then(|t| t.as_u64()).map(|t| t as usize).unwrap_or(n + 2);
+        'outer: for _ in 0..take.min(n + 2) {
             let reads0 = sh.borrow().reads;
             loop {
                 let mut nx = stream.next();
@@ -144,8 +147,14 @@ fn run_case(case: &Value) -> Value {
                 }
             }
         }
+        if take < n + 2 && !stuck {
+            // the unfinished stream is dropped while earlier items are still held
+            drop(stream);
+            let views: Vec<String> = held.iter().map(|s| hex(s.as_bytes())).collect();
+            after_drop = json!(views);
+        }
     }
-    json!({"id": case["id"], "steps": steps, "stuck": stuck})
+    json!({"id": case["id"], "steps": steps, "stuck": stuck, "after_drop": after_drop})
 }
 
 fn main() {
